@@ -91,7 +91,7 @@ def run_tape(tape):
 
 def _run(tape, clock):
     run = Run(PROP)
-    fault_mode = tape.draw(3)           # 0 none, 1 crash after mutation k, 2 put k fails
+    fault_mode = tape.draw(4)           # 0 none, 1 crash after mutation k, 2 put k fails once, 3 puts of one kind of object keep failing
     k = tape.draw(4096)
     world = fakes3.World(clock=clock.utc, page_size=tape.choice([1000, 1, 2]))
     C.set_world(world)
@@ -113,11 +113,15 @@ def _run(tape, clock):
         run.probe('shared_bucket_prefix_of_prefix')
     saved = {}            # (prefix, id) -> (data, metadata) of completed saves
     pending = {}
+    attempted = []
     open_recs = dict((c['name'], []) for c in cass)
     if fault_mode == 1:
         world.crash_after = k
     elif fault_mode == 2:
         world.fail_put = k
+    elif fault_mode == 3:
+        world.fail_put_keys = ['/full/'] if k % 2 == 0 else ['/metadata/']
+        run.fault('put_keeps_failing')
 
     def observer(seq, op, key):
         if op != 'put':
@@ -134,7 +138,7 @@ def _run(tape, clock):
     try:
         for n in range(nops):
             c = tape.choice(cass)
-            op = tape.weighted([(3, 'create'), (4, 'save'), (2, 'get'), (2, 'list'), (1, 'close'), (1, 'with_exit')])
+            op = tape.weighted([(3, 'create'), (4, 'save'), (2, 'get'), (2, 'list'), (1, 'close'), (1, 'with_exit'), (2, 'get_metadata')])
             before = world.snapshot().get('bkt', {})
             nlog = len(world.log)
             label = '%s.%s' % (c['name'], op)
@@ -159,6 +163,7 @@ def _run(tape, clock):
                             continue
                         r, data, md = open_recs[donors[0]['name']].pop(0)
                     pending = {(c['prefix'], r.id): (data, md)}
+                    attempted.append((c['prefix'], r.id))
                     c['obj'].save_recording(r)
                     saved[(c['prefix'], r.id)] = (data, md)
                     pending = {}
@@ -169,6 +174,14 @@ def _run(tape, clock):
                     else:
                         try:
                             c['obj'].get_recording('OpA/20200101/nothing')
+                        except Exception:
+                            pass
+                elif op == 'get_metadata':
+                    # any id this prefix ever tried to save, including saves that stopped half-way
+                    ids = sorted(set(rid for (p, rid) in list(saved) + attempted if p == c['prefix']))
+                    if ids:
+                        try:
+                            c['obj'].get_recording_metadata(tape.choice(ids))
                         except Exception:
                             pass
                 elif op == 'list':
@@ -251,3 +264,6 @@ def run_index(i, seed, tier, emit):
         for mode in (1, 2):
             t = Tape(seed, prefix=[mode, k])
             emit(safe_run_tape(mod, t), t)
+    for k in (0, 1):
+        t = Tape(seed, prefix=[3, k])
+        emit(safe_run_tape(mod, t), t)
